@@ -102,10 +102,22 @@ Print Assumptions C12_op_footprint_within.
     area only *)
 Theorem C12_refused_commit_changes_nothing : forall c s o f p,
   hex_ok (o_hex o) = true -> (o_kind o = KCommit \/ o_kind o = KUpgrade) ->
-  o_exists o = false -> new_root_ok s (c_root c) (o_rel o) = false ->
+  o_found o = false -> new_root_ok s (c_root c) (o_rel o) = false ->
   allowed c s o f = true -> In p (targets f) -> stage_target c f p.
 Proof. exact refused_commit_in_staging. Qed.
 Print Assumptions C12_refused_commit_changes_nothing.
+
+(** an id whose layout path is not a relative descendant of the storage root (absolute, "..", no
+    Normal component): [get_inventory_by_path] never finds an object there (fix 3fb070d), the guard
+    never creates or purges one there - every call of every operation on that id stays in the
+    staging area, or removes a named source of an external mv *)
+Theorem C12_unmapped_id_stays_in_staging : forall c s o f p,
+  hex_ok (o_hex o) = true -> o_kind o <> KInit -> o_kind o <> KUpgradeRepo ->
+  is_relative_descendant (o_rel o) = false ->
+  allowed c s o f = true -> In p (targets f) ->
+  stage_target c f p \/ (o_kind o = KMvExt /\ existsb (fun sr => under sr p) (o_srcs o) = true).
+Proof. exact unmapped_id_in_staging. Qed.
+Print Assumptions C12_unmapped_id_stays_in_staging.
 
 (** no operation other than purge touches anything inside an object of the main repository
     except root inventory, sidecar, declaration and the version directory that does not exist *)
